@@ -220,6 +220,7 @@ type call struct {
 	method  string
 	hijErr  error
 	sameReq bool
+	warn    string // Warning header of the response (phase res)
 	// reading hijackers: what they read after their announcement, and how it ended
 	hijRead    bool
 	hijGot     []byte
@@ -411,7 +412,7 @@ func (p *probe) ModifyResponse(res *http.Response) error {
 	}
 	id, beh := req.Header.Get("X-Verif-Id"), req.Header.Get("X-Verif-Beh")
 	ctx := martian.NewContext(req)
-	c := call{phase: "res", id: id, beh: beh, req: req, ctx: ctx, seq: atomic.AddInt64(p.clock, 1), status: res.StatusCode, method: req.Method, nilCtx: ctx == nil}
+	c := call{phase: "res", id: id, beh: beh, req: req, ctx: ctx, seq: atomic.AddInt64(p.clock, 1), status: res.StatusCode, method: req.Method, nilCtx: ctx == nil, warn: strings.Join(res.Header["Warning"], " | ")}
 	if ctx != nil {
 		c.ctxID, c.sess = ctx.ID(), ctx.Session()
 		if c.sess != nil {
@@ -681,6 +682,12 @@ func runOnce(c Case, T time.Duration) (v kit.Verdict) {
 			}
 			// afterHijack: the marker (if any) is all the client receives, then EOF;
 			// a further request must trigger nothing.
+			// bodyCut: the request that is being hijacked was sent with only the first
+			// bytes of its body. Without a marker from the hijacker (inside TLS) the
+			// client cannot tell when the hijack has happened, and whatever it sent
+			// now would arrive where the rest of that body is due - read by the round
+			// trip as (malformed) body. A client that knows nothing sends nothing.
+			bodyCut := false
 			afterHijack := func(id, marker string, tlsInside bool) {
 				shape := cn.Mode + "/" + strings.Split(marker, "-"+id)[0]
 				if marker == "" {
@@ -709,7 +716,7 @@ func runOnce(c Case, T time.Duration) (v kit.Verdict) {
 					if cw, ok := conn.(interface{ CloseWrite() error }); ok {
 						cw.CloseWrite()
 					}
-				} else {
+				} else if !(marker == "" && bodyCut) {
 					send("GET http://origin.test/after-hijack HTTP/1.1\r\nHost: origin.test\r\nX-Verif-Id: after-hijack-" + id + "\r\nX-Verif-Beh: pass\r\n\r\n")
 				}
 				conn.SetReadDeadline(time.Now().Add(T))
@@ -883,6 +890,7 @@ func runOnce(c Case, T time.Duration) (v kit.Verdict) {
 				}
 				if beh == bHijReq && c.Body != "" && c.PartialOnHijack {
 					wire = wire[:strings.Index(wire, "\r\n\r\n")+4+3]
+					bodyCut = true
 				}
 				if beh == bHijRes && c.Body != "" && early && !otherScheme(scheme) { // (an early answer takes an origin that is reached)
 					// The body of this request is (or may still be) in transit when the
@@ -893,9 +901,16 @@ func runOnce(c Case, T time.Duration) (v kit.Verdict) {
 					pb.mu.Unlock()
 					if c.PartialOnHijack {
 						wire = wire[:strings.Index(wire, "\r\n\r\n")+4+3]
+						bodyCut = true
 					}
 				}
 				if err := send(wire); err != nil {
+					if isHijack(beh) && c.Body != "" {
+						// The hijacker may take the connection - and the proxy close it on
+						// the hijacker's return - while the body is still being written:
+						// a refused write is then the close this exchange is due.
+						return
+					}
 					addf("C02/exchange/"+cn.Mode+"/client-write-failed", "exchange %s: %v", id, err)
 					return
 				}
@@ -1148,7 +1163,11 @@ func runOnce(c Case, T time.Duration) (v kit.Verdict) {
 		default:
 			if len(mine) != 1 {
 				if len(resCalls) == wantRes { // otherwise already reported above
-					v.Addf("C02/calls/"+kind+"/"+e.beh+"/origin-receipt-count", "exchange %s reached the origin %d times, want 1", e.id, len(mine))
+					st, wn := 0, ""
+					if len(resCalls) > 0 {
+						st, wn = resCalls[0].status, resCalls[0].warn
+					}
+					v.Addf("C02/calls/"+kind+"/"+e.beh+"/origin-receipt-count", "exchange %s reached the origin %d times, want 1 (its response modifier saw status %d, Warning %q)", e.id, len(mine), st, wn)
 				}
 				break
 			}
